@@ -595,6 +595,28 @@ func (e *SEnv) evalCall(n *SCall) Val {
 			delete(e.vars, "self")
 		}
 		return specBool(And(cs...))
+	case "mapsame", "mapsameexcept": // the map is unchanged w.r.t. old() (except, possibly, at one key)
+		if e.old == nil {
+			sfail("%s needs a two-state context", n.Fun)
+		}
+		m := e.eval(n.Args[0])
+		if m.T == nil {
+			sfail("%s: map expected", n.Fun)
+		}
+		if _, ok := m.T.Underlying().(*types.Map); !ok {
+			sfail("%s: map expected", n.Fun)
+		}
+		x := BoundVar("k")
+		var guard Term = True
+		if n.Fun == "mapsameexcept" {
+			guard = Ne(x, e.r.mapKeyTerm(e.st, e.eval(n.Args[1])))
+		}
+		ref := m.C[0]
+		cs := []Term{Eq(Select(Select(e.r.mapDom(e.st, m), ref), x), Select(Select(e.r.mapDom(e.old, m), ref), x))}
+		for _, l := range layout(elemOf(m.T)) {
+			cs = append(cs, Eq(Select(Select(e.r.mapValHeap(e.st, m, l), ref), x), Select(Select(e.r.mapValHeap(e.old, m, l), ref), x)))
+		}
+		return specBool(Forall([]Term{x}, Implies(guard, And(cs...))))
 	case "calls": // calls("T.F"): how many times this function body has called the contracted callee so far
 		return specInt(e.r.callsTerm(e.st, n.Args[0].(*SStrL).V))
 	case "calledwith": // calledwith("T.F", i, x): the most recent call of T.F passed x as argument i (false if never called)
